@@ -168,3 +168,16 @@ Definition run_final (closers : list Z) : V :=
   VL [VB (isClosed s); VB (gflag s); VB (closeDone s); VB (gracefulDone s);
       VB (sigClosed s); VZ (pcs_to_Z (connState s));
       VB (closed_is_final (connLog s) && pcs_eqb (last (connLog s) PcNew) PcClosed)].
+
+(* suite "entry": callers that arrive while pc.mu is held by a third party and
+   are let go in whatever order the mutex hands itself over.  Only the list of
+   callers is known; every complete schedule ends in the same flags and
+   counters (c21_final_state, c21_final_state_graceful, c21_teardown_once), so
+   a round-robin one is run *)
+Definition run_entry (closers : list Z) : V :=
+  let ts := map (fun k => if Z.eqb k 1 then TGracefulClose else TClose) closers in
+  let n := List.length ts in
+  let s := Close.run (init ts) (round_robin (7 * n) n) in
+  VL [VB (isClosed s); VB (gflag s); VB (closeDone s); VB (gracefulDone s);
+      VB (sigClosed s); VZ (pcs_to_Z (connState s));
+      Vnat (teardowns s); Vnat (gracefulOps s); VB (panicked s)].
